@@ -35,6 +35,9 @@ import (
 //             drawn order and one event is published during which an EARLIER subscribed application handler stays
 //             inside HandleEvent until a LATER subscribed one has entered HandleEvent for the same event (c15Await;
 //             also the other way round, and all of them waiting for each other).
+//             Every other case ends with a burst stage (c15_burst.go): up to 220 extra application handlers, a burst of up
+//             to 400 events from 1-3 goroutines, and every application-level invocation stays inside HandleEvent until
+//             all Publish calls have returned and all invocations (up to 1500 at once) have been entered.
 // integrated: after a peer's discovery reply the application handler of DeviceChange/add must find the
 //             NodeManagement subscription call and the use-case read on that peer's tap already written.
 //             The ordering the statement demands: core-level handlers run to completion before the publication
@@ -73,6 +76,10 @@ func init() {
 			"bus, action 'block': an application handler stays inside HandleEvent until its publication has returned, bounded by 5 s; expiry together with the logged order 'Publish returned after the handler had left' is the violation (Publish waits for application handlers). " +
 			"integrated, two cases in five are connection life cycle histories (sequential script over 1-3 peers of setup / setup with FAST reply / announce / leave, six templates + 0-4 drawn steps): the announcing peer is the only connection (first ever, or first after the last connection was removed), another peer left for good between a peer's connection and its announcement, " +
 			"and fast reply = the peer's discovery reply is processed on a helper goroutine from INSIDE the connection write of the discovery read, the write returning when a core-level observer subscribed before any connection has seen the event (15 s bound, expiry inconclusive); in a third of the drawn steps application handler 1 disconnects the event's own device from inside HandleEvent, handler 2 sets data on a local server feature and subscribes a local client feature to the announcing device. " +
+			"bus, burst stage (every case without a mutual-wait stage): 1-3 of the application handlers and 0/5/30/70/130/220 extra application handlers are subscribed anew in a drawn order (every seventh twice), then 1-3 goroutines publish a burst of 1/3/20/70/150/400 events (events x handlers capped at 1500 quick, 5000 thorough, 900 under -race) during which EVERY application-level invocation stays inside HandleEvent until every Publish of the burst has returned and every invocation of the burst has been entered - " +
+			"the number of invocations in flight at once is a drawn dimension from 1 to more than a thousand; before the wait, per stage drawn, nothing / calls into the stack / a follow-up publication by a drawn subset or by everybody; after it nothing or the handler's ordinary re-entrant action; no deadline of its own: a watchdog lets the handlers go when neither a Publish returned nor a handler was entered for 8 s, and the verdict needs the logged order (a Publish of the burst returned, or an invocation was entered, only after the handlers had been let go); then the extra handlers are unsubscribed and one more event is published (zero pairs). " +
+			"integrated, connection REPLACED: in two of five reconnects of the classic cases, in three more life cycle templates (eleven in all) (the only connection replaced after / before its announcement; the remaining one replaced after another peer left for good) and in a quarter of the drawn steps SetupRemoteDevice is called for a SKI that is still registered (no RemoveRemoteDeviceConnection in between); two more templates and a sixth of the drawn steps for an unconnected peer report the end of a connection that does not exist (a peer that never connected, or a second time for a peer that has left) while another peer is connected and has not announced itself yet; " +
+			"the stack's own reaction is also counted per connection: at most one NodeManagement subscription call and one use-case read for the one announcement of a connection. " +
 			"Expected deliveries per peer = number of announcements of the script (classic cases: number of discovery replies processed), not what another bus handler saw. " +
 			"distinct = hash of operation kinds, targets, goroutine split and action slots.",
 		Assumptions: []string{
@@ -82,6 +89,7 @@ func init() {
 			"publishing from inside a core-level handler is not generated (the stack never does it; Publish holds its handling mutex there)",
 			"a publisher or handler that does not return parks the case for the parent's hang monitor (hang@<frame>)",
 			"integrated: 'the stack's internal handlers have finished' is observed through the two messages DeviceLocal.HandleEvent (the stack's core-level handler of DeviceChange/add) sends to the announcing peer: the handler has finished only when both connection writes have returned (sending is synchronous). 'before publication returns' is observed at the return of DeviceRemote.HandleSpineMesssage for the discovery reply, inside which the event is published. A parked write is released by the case at a logical point; the length of the hold never enters a verdict",
+			"burst stage: 'application handlers run asynchronously' holds for any number of application-level invocations in flight: a publication never waits for an application-level invocation to return, and the start of an application-level invocation never waits for another one (of the same or of an earlier event, of the same or of another handler) to return; a handler may therefore wait inside HandleEvent for later publications to return and for their deliveries to start. The watchdog (8 s without any movement, everything involved being runnable) only ends the wait; the verdict is on the logged order",
 			"mutual-wait stage: 'application handlers run asynchronously' includes 'with respect to each other': the delivery of an event to one application handler does not wait for another application handler of the same event to return. A handler's wait for another handler's entry is bounded by 5 s with nothing else pending in the process (Publish has started the later handler's goroutine before it returned); the verdict needs the expiry AND the logged order 'the awaited handler entered only after the waiting one had left'",
 		},
 		Parts: []rig.Part{
@@ -180,6 +188,13 @@ type c15Case struct {
 	nextAwait *c15Await
 	awaits    map[int]*c15Await
 	stage     []string
+
+	// burst stage (c15_burst.go): publications made while burstCur is set belong to it; plain: follow-up events whose
+	// deliveries carry no re-entrant action
+	burstCur *c15Burst
+	burstOf  map[int]*c15Burst
+	bursts   []*c15Burst
+	plain    map[int]bool
 }
 
 // c15Await: while handling ONE event, an application handler stays inside HandleEvent until other application
@@ -248,9 +263,19 @@ func (h *c15Handler) HandleEvent(p api.EventPayload) {
 	cs.mu.Lock()
 	onPublisher := cs.pubs[tok.id] != nil && cs.pubs[tok.id].goid == g
 	aw := cs.awaits[tok.id]
+	bs := cs.burstOf[tok.id]
+	if cs.plain[tok.id] {
+		act = c15Act{}
+	}
 	cs.mu.Unlock()
 	var done string
-	if aw != nil {
+	if bs != nil {
+		// an event of the burst stage: core-level deliveries carry no action (the set of subscribed handlers does not
+		// change while the burst is being published), application-level ones stay until all of them are in flight
+		if !onPublisher {
+			done = bs.handle(cs, h, tok, act)
+		}
+	} else if aw != nil {
 		// an event of the mutual-wait stage: no other re-entrant action
 		if ch := aw.entered[h.idx]; ch != nil {
 			aw.once[h.idx].Do(func() { close(ch) })
@@ -448,7 +473,9 @@ func c15PayloadDiff(want, got api.EventPayload) string {
 	return strings.Join(d, ", ")
 }
 
-func (cs *c15Case) publish(depth int, by string) {
+func (cs *c15Case) publish(depth int, by string) { cs.publishX(depth, by, false) }
+
+func (cs *c15Case) publishX(depth int, by string, plain bool) {
 	cs.mu.Lock()
 	id := cs.nextTok
 	cs.nextTok++
@@ -456,6 +483,13 @@ func (cs *c15Case) publish(depth int, by string) {
 	cs.pubs[id] = pub
 	if depth == 0 && cs.nextAwait != nil {
 		cs.awaits[id], cs.nextAwait = cs.nextAwait, nil
+	}
+	if depth == 0 && cs.burstCur != nil {
+		cs.burstOf[id] = cs.burstCur
+		cs.burstCur.ids = append(cs.burstCur.ids, id)
+	}
+	if plain {
+		cs.plain[id] = true
 	}
 	cs.mu.Unlock()
 	tok := &c15Token{cs: cs, id: id, depth: depth, returned: make(chan struct{})}
@@ -513,7 +547,7 @@ func c15Bus(c *rig.Ctx) {
 	c.Count("foreign_handlers_subscribed_at_start", int64(spine.VerifHandlerCount()))
 
 	cs := &c15Case{c: c, w: w, ent: ent, feat: feat, peer: peer, names: []string{"K1", "K2", "A1", "A2", "A3"},
-		pubs: map[int]*c15Pub{}, reentrant: map[string]int{}, awaits: map[int]*c15Await{}, toks: map[int]*c15Token{}, payloads: map[int]api.EventPayload{}, salt: r.Uint64()}
+		pubs: map[int]*c15Pub{}, reentrant: map[string]int{}, awaits: map[int]*c15Await{}, burstOf: map[int]*c15Burst{}, plain: map[int]bool{}, toks: map[int]*c15Token{}, payloads: map[int]api.EventPayload{}, salt: r.Uint64()}
 	for i := range cs.names {
 		cs.hs = append(cs.hs, &c15Handler{cs: cs, idx: i})
 	}
@@ -750,6 +784,13 @@ func c15Bus(c *rig.Ctx) {
 			}
 		}
 		shape = append(shape, stage...)
+	} else {
+		// burst stage (c15_burst.go): many application-level invocations inside HandleEvent at the same moment
+		var ok bool
+		if stage, ok = cs.burstStage(r, baseline, exec); !ok {
+			return
+		}
+		shape = append(shape, stage...)
 	}
 	cs.stage = stage
 	cs.judge(dual, levelsOf, nPub, strings.Join(shape, ","), prologue, lists, epilogue)
@@ -984,6 +1025,7 @@ func (cs *c15Case) judge(dual bool, levelsOf func(int) []int, nPub int, shape st
 			}
 		}
 	}
+	cs.judgeBursts(delsByTok, witness)
 	re := 0
 	for k, n := range cs.reentrant {
 		if k != "slow" {
@@ -1014,7 +1056,7 @@ func (cs *c15Case) judge(dual bool, levelsOf func(int) []int, nPub int, shape st
 	for _, l := range lists {
 		pl = append(pl, plan(l))
 	}
-	c.Sample(map[string]any{"handlers": cs.names, "A3_also_core": dual, "prologue": plan(prologue), "publishers": pl, "epilogue": plan(epilogue), "mutual_wait_stage": strings.Join(cs.stage, " "),
+	c.Sample(map[string]any{"handlers": cs.names, "A3_also_core": dual, "prologue": plan(prologue), "publishers": pl, "epilogue": plan(epilogue), "mutual_wait_or_burst_stage": strings.Join(cs.stage, " "),
 		"log_head": strings.Split(cs.renderLocked(60), "\n")})
 }
 
@@ -1192,6 +1234,22 @@ func c15WriteKind(d model.DatagramType) string {
 	return ""
 }
 
+// c15StackReaction counts what the stack's own core-level handler of DeviceChange/add writes to the announcing peer: calls
+// that subscribe to the peer's NodeManagement feature, and use-case reads.
+func c15StackReaction(outs []rig.Out) (subs, ucs int) {
+	for _, out := range outs {
+		switch c15WriteKind(out.D) {
+		case "subscription-call":
+			if rq := out.D.Payload.Cmd[0].NodeManagementSubscriptionRequestCall.SubscriptionRequest; rq != nil && rq.ServerFeatureType != nil && *rq.ServerFeatureType == model.FeatureTypeTypeNodeManagement {
+				subs++
+			}
+		case "use-case-read":
+			ucs++
+		}
+	}
+	return
+}
+
 func (t *c15Writer) WriteShipMessageWithPayload(m []byte) {
 	var d model.Datagram
 	if err := json.Unmarshal(m, &d); err != nil {
@@ -1265,6 +1323,10 @@ func c15Integrated(c *rig.Ctx) {
 	delay := []time.Duration{0, 100 * time.Microsecond, 300 * time.Microsecond, 2 * time.Millisecond}[r.Intn(4)]
 	// per round: which writes of the stack's own reaction do not return until the case lets them
 	park := make([][]string, nPeers)
+	// per round > 0: the new connection REPLACES the old one (SetupRemoteDevice for a SKI that is still registered: the
+	// connection layer reports the new connection before the end of the old one, or never reports that) instead of
+	// following its removal
+	replace := make([][]bool, nPeers)
 	var gatesMu sync.Mutex
 	var allGates []*eGate
 	defer func() {
@@ -1295,6 +1357,7 @@ func c15Integrated(c *rig.Ctx) {
 		rounds[i] = 1 + r.Intn(2)
 		for rd := 0; rd < rounds[i]; rd++ {
 			park[i] = append(park[i], []string{"", "", "subscription-call", "use-case-read", "both"}[r.Intn(5)])
+			replace[i] = append(replace[i], rd > 0 && r.Intn(5) < 2)
 		}
 		p := &rig.Peer{Ski: fmt.Sprintf("%s-ski%d", c.Tag(), i), Addr: fmt.Sprintf("dev%d", i), Tap: &rig.Tap{}, W: w, Ctr: uint64(i+1) * 100000}
 		writers[i] = newWriter(park[i][0])
@@ -1332,7 +1395,14 @@ func c15Integrated(c *rig.Ctx) {
 		for rd := 0; rd < rounds[i] && !aborted.Load(); rd++ {
 			if rd > 0 {
 				if pan := eGuard(c, "reconnect", func() {
-					w.Local.RemoveRemoteDeviceConnection(p.Ski)
+					if !replace[i][rd] {
+						w.Local.RemoveRemoteDeviceConnection(p.Ski)
+					} else {
+						c.Count("integrated_connection_replaced_without_removal", 1)
+						if nPeers == 1 {
+							c.Count("integrated_connection_replaced_without_removal:only-connection", 1)
+						}
+					}
 					writers[i] = newWriter(park[i][rd])
 					w.Local.SetupRemoteDevice(p.Ski, writers[i])
 					p.RD = w.Local.RemoteDeviceForSki(p.Ski)
@@ -1523,7 +1593,13 @@ func c15Integrated(c *rig.Ctx) {
 		}
 		var subSeq, ucSeq int64
 		var lines []string
-		for _, out := range o.wr.take() { // everything this connection's writer completed until the process was quiet
+		outs := o.wr.take() // everything this connection's writer completed until the process was quiet
+		// exactly once: the stack's own handler is a subscribed handler like any other; one announcement per connection
+		c.Events(1)
+		if ns, nu := c15StackReaction(outs); ns > 1 || nu > 1 {
+			c.Violate("integrated/stack-handler-reacted-more-than-once", "%s: one discovery reply was processed on this connection (one DeviceChange/add); NodeManagement subscription calls written to the peer: %d, use-case reads: %d", id, ns, nu)
+		}
+		for _, out := range outs {
 			switch k := c15WriteKind(out.D); {
 			case k == "subscription-call" && subSeq == 0:
 				subSeq = out.Seq
@@ -1592,12 +1668,12 @@ func c15Integrated(c *rig.Ctx) {
 		}
 	}
 	if c.Failed() {
-		c.Witness(map[string]any{"peers": nPeers, "rounds": rounds, "concurrent": concurrent, "parked_writes": park, "trace": trace})
+		c.Witness(map[string]any{"peers": nPeers, "rounds": rounds, "concurrent": concurrent, "parked_writes": park, "connection_replaced_without_removal": replace, "trace": trace})
 	}
-	c.Shape(fmt.Sprintf("peers=%d rounds=%v concurrent=%v writer-delay=%s parked=%v", nPeers, rounds, concurrent, delay, park))
+	c.Shape(fmt.Sprintf("peers=%d rounds=%v concurrent=%v writer-delay=%s parked=%v replaced=%v", nPeers, rounds, concurrent, delay, park, replace))
 	c.NonTrivial(complete && len(obs) > 0)
 	c.Count("integrated_rounds", int64(len(obs)))
-	c.Sample(map[string]any{"peers": nPeers, "rounds": rounds, "concurrent": concurrent, "writer_delay": delay.String(), "parked_writes": park, "trace": trace})
+	c.Sample(map[string]any{"peers": nPeers, "rounds": rounds, "concurrent": concurrent, "writer_delay": delay.String(), "parked_writes": park, "connection_replaced_without_removal": replace, "trace": trace})
 }
 
 // ---------------------------------------------------------------------------
@@ -1678,7 +1754,7 @@ func c15Lifecycle(c *rig.Ctx) {
 	// ---- the script
 	nPeers := []int{1, 1, 2, 2, 3}[r.Intn(5)]
 	var script []c15LifeStep
-	tmpl := (c.Index/5*2 + c.Index%5/2) % 6 // c.Index%5 is 1 or 3: consecutive life cycle cases walk through the templates
+	tmpl := (c.Index/5*2 + c.Index%5/2) % 11 // c.Index%5 is 1 or 3: consecutive life cycle cases walk through the templates
 	switch tmpl {
 	case 0: // the first connection ever answers fast
 		script = []c15LifeStep{{"setup", 0, true, r.Intn(2) == 0}}
@@ -1696,6 +1772,25 @@ func c15Lifecycle(c *rig.Ctx) {
 		if r.Intn(2) == 0 {
 			script = []c15LifeStep{{"setup", 0, false, false}, {"setup", 1, false, false}, {"leave", 0, false, false}, {"announce", 1, false, false}}
 		}
+	// 6-8: a connection is REPLACED - SetupRemoteDevice for a SKI that is still registered (the connection layer reports the
+	// new connection before the end of the old one, or never reports that)
+	case 6: // the only connection has announced itself and is replaced
+		script = []c15LifeStep{{"setup", 0, r.Intn(2) == 0, false}, {"announce", 0, false, false}, {"setup", 0, r.Intn(2) == 0, false}, {"announce", 0, false, false}}
+	case 7: // the only connection is replaced before it announced itself
+		script = []c15LifeStep{{"setup", 0, false, false}, {"setup", 0, r.Intn(2) == 0, false}, {"announce", 0, false, false}}
+	case 8: // two connections, one leaves for good, then the remaining one is replaced
+		nPeers = max(nPeers, 2)
+		script = []c15LifeStep{{"setup", 0, false, false}, {"setup", 1, false, false}, {"announce", 0, false, false}, {"announce", 1, false, false}, {"leave", 1, false, false}, {"setup", 0, r.Intn(2) == 0, false}, {"announce", 0, false, false}}
+		if r.Intn(2) == 0 {
+			script = []c15LifeStep{{"setup", 0, false, false}, {"setup", 1, false, false}, {"leave", 1, false, false}, {"setup", 0, false, false}, {"announce", 0, false, false}}
+		}
+	// 9-10: the end of a connection that does not exist is reported while another peer is connected and has not announced itself yet
+	case 9: // ... for a peer that never connected
+		nPeers = max(nPeers, 2)
+		script = []c15LifeStep{{"setup", 0, false, false}, {"leave", 1, false, false}, {"announce", 0, false, false}}
+	case 10: // ... a second time for a peer that has left
+		nPeers = max(nPeers, 2)
+		script = []c15LifeStep{{"setup", 0, r.Intn(2) == 0, false}, {"setup", 1, false, false}, {"announce", 0, false, false}, {"leave", 0, false, false}, {"leave", 0, false, false}, {"announce", 1, false, false}}
 	}
 	st := make([]int, nPeers) // 0 not connected, 1 connected, 2 announced
 	for i := 0; i < len(script); i++ {
@@ -1718,7 +1813,16 @@ func c15Lifecycle(c *rig.Ctx) {
 	for n := r.Intn(5); n > 0; n-- {
 		i := r.Intn(nPeers)
 		hl := r.Intn(3) == 0 // the application disconnects the device from inside its handler of DeviceChange/add
-		switch st[i] {
+		state := st[i]
+		if state != 0 && r.Intn(4) == 0 {
+			state = 0 // the connection is replaced: set up again without a leave
+		}
+		if st[i] == 0 && r.Intn(6) == 0 {
+			// the end of a connection that does not exist (any more) is reported: a second leave, or one for a peer that never connected
+			script = append(script, c15LifeStep{"leave", i, false, false})
+			continue
+		}
+		switch state {
 		case 0:
 			eager := r.Intn(2) == 0
 			script = append(script, c15LifeStep{"setup", i, eager, eager && hl})
@@ -1836,6 +1940,12 @@ func c15Lifecycle(c *rig.Ctx) {
 			wr := &c15Writer{delay: delay, gates: map[string]*c15WriteGate{}}
 			writers[s.peer] = wr
 			leftSince[s.peer] = false
+			if connected[s.peer] {
+				c.Count("lifecycle:connection-replaced-without-leave", 1)
+				if others == 0 {
+					c.Count("lifecycle:connection-replaced-without-leave:only-connection", 1)
+				}
+			}
 			if s.handlerLeaves {
 				actMu.Lock()
 				leaveAt[fmt.Sprintf("%s#%d", p.Ski, expected[s.peer])] = true
@@ -1959,6 +2069,10 @@ func c15Lifecycle(c *rig.Ctx) {
 				c.Violate("integrated/disconnect-panics", "%s", pan)
 				return
 			}
+			if !connected[s.peer] {
+				c.Count("lifecycle:leave-of-a-peer-that-is-not-connected", 1)
+				break
+			}
 			connected[s.peer] = false
 			anyLeft = true
 			for j := range leftSince {
@@ -2006,6 +2120,11 @@ func c15Lifecycle(c *rig.Ctx) {
 		adds, adds2 := h1.addsFor(p.Ski), h2.addsFor(p.Ski)
 		if _, ok := taken[o.wr]; !ok {
 			taken[o.wr] = o.wr.take()
+			// exactly once: the stack's own handler is a subscribed handler like any other; a connection announces itself once
+			c.Events(1)
+			if ns, nu := c15StackReaction(taken[o.wr]); ns > 1 || nu > 1 {
+				c.Violate("integrated/stack-handler-reacted-more-than-once", "%s: one discovery reply was processed on this connection (one DeviceChange/add); NodeManagement subscription calls written to the peer: %d, use-case reads: %d\n script: %s", id, ns, nu, strings.Join(shape, " "))
+			}
 		}
 		var subSeq, ucSeq int64
 		for _, out := range taken[o.wr] {
